@@ -107,6 +107,11 @@ def call_function(ex, qualname, args, kwargs, st, n, closure_node=None, self_obj
         mi_name = ex.cur_module
     else:
         if qualname not in ex.program.functions:
+            if c is not None and not c.inline:
+                allargs0 = ([self_obj] if self_obj is not None else []) + list(args)
+                if len(allargs0) != len(c.params):
+                    raise PyExc(ExcV('TypeError'))
+                return call_contract(ex, c, dict(zip([p for p, _ in c.params], allargs0)), st, n)
             raise OutOfSubset('unknown function %s' % qualname)
         mi, node, parent = ex.program.functions[qualname]
         mi_name = mi.name
@@ -189,7 +194,7 @@ def call_contract(ex, c, bound, st, n):
         if cl.label.startswith('engine_') and caller_policy != 'engine':
             continue      # ownership discipline of engine code; wrappers forward records they hold
         g = ex.ceval(cl.expr, callee, callee, None)
-        ex.oblige(st, 'call.%s.%s.l%d' % (c.name, cl.label, ln), g, n, kind='pre', note='precondition of %s' % c.target)
+        ex.oblige(st, 'call.%s.%s.%s' % (c.name, cl.label, ex.site(n)), g, n, kind='pre', note='precondition of %s' % c.target)
         ex.assume(st, g)
     for cl in c.assumes:
         ex.assumptions_used.add('%s: %s' % (c.name, cl.label))
@@ -264,7 +269,7 @@ def havoc_for_call(ex, st, pre, items, ctor_ghost=()):
                         ex.harr(st, nm, ArrS(INT, sort_of(fpt)))
                         names.add(nm)
             for nm in sorted(names):
-                if ex._family_array(nm, v) and not nm.endswith('.pairs') and not nm.endswith('.strict'):
+                if ex._family_array(nm, v) and nm.split('.')[-1] not in ('kind', 'jmv', 'nullw', 'kidx'):
                     st.heap[nm] = fresh('hfam_' + nm.split('.')[-1].replace(':', '_').replace('(', '').replace(')', '').replace(' ', '_'), st.heap[nm].sort)
             continue
         if kind == 'field':
